@@ -396,6 +396,47 @@ func evaluate(c Case) (o vev.Outcome, err error) {
 			return o, fmt.Errorf("unknown op %q", op.Kind)
 		}
 	}
+	// the same client and handler once more after the backend's metadata and content changed under the same names:
+	// what a call reports is what the backend holds at the time of that call (no state kept between calls)
+	if mem != nil {
+		n := 0
+		var names []string
+		for p := range mem.Files {
+			names = append(names, p)
+		}
+		sort.Strings(names)
+		for _, p := range names {
+			f := mem.Files[p]
+			if f.Info.IsDir || f.Info.Size > sparseAbove {
+				continue
+			}
+			f.Data = append([]byte("changed:"), f.Data...)
+			f.Info.Size = int64(len(f.Data))
+			f.Info.ETag += "-2"
+			f.Info.ModTime = f.Info.ModTime.Add(90 * time.Minute)
+			f.Info.MIMEType = "application/x-changed"
+			want, werr := fs.Stat(ctx, p)
+			got, gerr := cl.Stat(ctx, p)
+			if werr != nil || gerr != nil {
+				return dev("again|stat|error", "second round Stat(%q): backend %v, client %v", p, werr, gerr), nil
+			}
+			if o := sameInfo("again|stat", got, want); !o.OK() {
+				return o, nil
+			}
+			if rc, err := cl.Open(ctx, p); err != nil {
+				return dev("again|open|error", "second round Open(%q): %v", p, err), nil
+			} else {
+				data, _ := io.ReadAll(rc)
+				rc.Close()
+				if !bytes.Equal(data, f.Data) {
+					return dev("again|open|content", "second round Open(%q): client read %.40q, backend holds %.40q", p, data, f.Data), nil
+				}
+			}
+			if n++; n >= 3 {
+				break
+			}
+		}
+	}
 	return vev.Outcome{}, nil
 }
 
